@@ -171,6 +171,28 @@ def root_place(body, p, depth=0):
     return cur["l"], fields
 
 
+def receiver_root(body, op, depth=0):
+    """the container a (sub)slice operand was cut from: follows reference temporaries and the *receiver* (first argument) of
+    slicing / reborrowing calls - index, index_mut, split_at(_mut) (+ tuple field), get(_mut) + unwrap, as_(mut_)slice, deref(_mut),
+    iter-free views - never the range / index arguments.  Returns (root local, field names from the root)."""
+    p = op_place(op)
+    fields = []
+    for _ in range(40):
+        if p is None:
+            return None, fields
+        l, fs = root_place(body, p)
+        fields = fs + fields
+        if l is None or 1 <= l <= body.argc:
+            return l, fields
+        d = single_def(body, l)
+        if d is None or d[1] != "term" or d[2]["k"] != "call" or not d[2]["args"]:
+            return l, fields
+        if not re.search(r"(::|>::)(index|index_mut|split_at|split_at_mut|split_at_checked|split_at_mut_checked|get|get_mut|unwrap|expect|as_slice|as_mut_slice|deref|deref_mut|as_ref|as_mut|borrow|borrow_mut|split_first_mut|split_last_mut|first_mut|last_mut)$", d[2].get("f", "")):
+            return l, fields
+        p = op_place(d[2]["args"][0])
+    return None, fields
+
+
 # ---------------------------------------------------------------- guards
 
 def switch_blocks(body):
@@ -839,6 +861,13 @@ _ARITH = re.compile(r"::(saturating_sub|saturating_add|wrapping_add|wrapping_sub
 _COMM = {"Add", "Mul", "BitAnd", "BitOr", "BitXor", "min", "max", "Eq", "Ne"}
 
 
+_SHAPE_LEAF = None   # optional hook (body, op, depth) -> leaf label; lets a rule keep the identity of the inputs it cares about
+
+
+def _leaf(body, op, depth):
+    return "in" if _SHAPE_LEAF is None else _SHAPE_LEAF(body, op, depth)
+
+
 def expr_shape(body, op, depth=0, repo_pred=None):
     """canonical operator tree of the value of `op`: arithmetic / comparison operators and arithmetic std methods are interior
     nodes, calls into the repository are named leaves, everything else (parameters, fields, lengths, constants' carriers, casts
@@ -851,7 +880,7 @@ def expr_shape(body, op, depth=0, repo_pred=None):
         return f"const:{c.get('v')}"
     p = op_place(op)
     if p is None:
-        return "in"
+        return _leaf(body, op, depth)
     if p.get("p"):
         # `_t.0` of a checked arithmetic pair
         pr = p["p"]
@@ -867,10 +896,10 @@ def expr_shape(body, op, depth=0, repo_pred=None):
                 m = re.search(r"::checked_(add|sub|mul)$", d[2].get("f", ""))
                 if m:
                     return _node({"add": "Add", "sub": "Sub", "mul": "Mul"}[m.group(1)], [expr_shape(body, a, depth + 1, repo_pred) for a in d[2]["args"]])
-        return "in"
+        return _leaf(body, op, depth)
     l = p["l"]
     if 1 <= l <= body.argc:
-        return "in"
+        return _leaf(body, op, depth)
     d = single_def(body, l)
     if d is None:
         # `if a > b { a - b } else { 0 }` is saturating_sub(a, b) spelled out
@@ -895,11 +924,11 @@ def expr_shape(body, op, depth=0, repo_pred=None):
                             ga, gb = gb, ga
                         if (ga, gb) == (sub_[1], sub_[2]) and te and body.dominated_by_any(other[0][0], edges=te):
                             return _node("saturating_sub", [sub_[1], sub_[2]])
-        return "in"
+        return _leaf(body, op, depth)
     bb, idx, s = d
     if idx == "term":
         if s["k"] != "call":
-            return "in"
+            return _leaf(body, op, depth)
         f = s.get("f", "")
         m = _ARITH.search(f)
         if m:
@@ -907,10 +936,10 @@ def expr_shape(body, op, depth=0, repo_pred=None):
         if (repo_pred or (lambda x: x.startswith(("turmoil", "<turmoil"))))(f) and "{closure" not in f:
             return "call:" + f
         if re.search(r"::(len|into|from|as_ref|deref|clone|unwrap_or|unwrap_or_default)$", f) and s["args"]:
-            return "in"
-        return "in"
+            return _leaf(body, op, depth)
+        return _leaf(body, op, depth)
     if s["p"].get("p"):
-        return "in"
+        return _leaf(body, op, depth)
     r = s["r"]
     k = r["k"]
     if k == "use":
@@ -922,7 +951,7 @@ def expr_shape(body, op, depth=0, repo_pred=None):
         return _node(opn, [expr_shape(body, r["a"], depth + 1, repo_pred), expr_shape(body, r["b"], depth + 1, repo_pred)])
     if k == "un":
         return _node(r["op"], [expr_shape(body, r["a"], depth + 1, repo_pred)])
-    return "in"
+    return _leaf(body, op, depth)
 
 
 def expr_shape_of_def(body, d, depth, repo_pred):
